@@ -9,6 +9,14 @@ VERIF = Path(__file__).resolve().parent.parent
 
 # id -> (category, technique, level text, level note, design ref, engine)
 CHECKS = {
+    "C01": (
+        "exploration",
+        "property-based testing (Hypothesis): metamorphic build/seal/request-order variants of generated configuration graphs, cross-process differential under other PYTHONHASHSEED values, replay of golden identifiers, reference-signature equality",
+        "Generated configuration graphs (nested, shared, cyclic, task outputs, containers, enums, pre/init tasks) are rebuilt under signature-neutral build variants, sealing orders and identifier request orders, in other processes under other string-hash seeds, and compared with identifiers recorded from the pinned commit; any difference is a violation. Bounded by graph size (<= 6/10 nodes) and case counts.",
+        "Trusted: the blueprint builder (the only code touching the API), the golden file recorded from the pinned commit, the reference signature for the 'equal signature' relation inside one graph.",
+        "DESIGN.md section 3, C01",
+        "blueprints",
+    ),
     "C18": (
         "exploration",
         "property-based testing (Hypothesis): generated request expressions x hosts against a reference sufficiency predicate; text/program differential; operand-purity metamorphic check; exhaustive small grid (thorough)",
